@@ -137,7 +137,13 @@ def stepFile (toks : List String) : String :=
     | none => "bad-op"
     | some (gen, f) =>
       if !f.determined then "unspecified"
-      else toHexW (Wire.strToBytes (Layout.printText gen f))
+      else
+        let text := Layout.printText gen f
+        -- the reader: the grammar model on the model's own text
+        let second := match Grammar.parseFile text with
+          | some d' => Wire.encFile2 d'
+          | none => "unread"
+        toHexW (Wire.strToBytes text) ++ " " ++ second
 
 def step (line : String) : String :=
   match line.trimAscii.toString.splitOn " " with
